@@ -213,9 +213,12 @@ func vfBackoffSum(k int, interval time.Duration, backoff bool) time.Duration {
 	for i := 0; i < k; i++ {
 		sum += cur
 		if backoff {
-			cur *= 2
-			if cur > 60*time.Second {
-				cur = 60 * time.Second
+			// "double after each timeout up to 60 s": the cap ends the doubling, it never shortens an interval that
+			// was configured above it
+			if d := cur * 2; d > 60*time.Second {
+				cur = max(60*time.Second, cur)
+			} else {
+				cur = d
 			}
 		}
 	}
